@@ -141,6 +141,11 @@ def run(rep):
     nforms = 40 if rep.tier == "quick" else 300
     wbs = [formgen.decorate(c["rows"], seed=rep.seed + i, feat=corpus.ALL_FEAT).wb() for i, c in enumerate(corpus.pick(shapes, nforms, rep.seed))]
     wbs += [forms["f1"], forms["f2"], forms["f3"]] + procsim.extra_forms()
+    # the workbooks the repository's own test-suite converts (frozen input corpus), accepted ones
+    from harness import suitecorpus
+
+    sw = [it["wb"] for it in suitecorpus.load() if it["status_at_freeze"] == "ok"]
+    wbs += sw if rep.tier == "thorough" else corpus.pick(sw, 200, rep.seed)
     seeds = list(range(8)) if rep.tier == "quick" else list(range(48))
     from concurrent.futures import ThreadPoolExecutor
 
